@@ -71,3 +71,6 @@ package ws
 //@
 //@ func (*listener).SetOption
 //@   before call:set#1 assert l.ug.Subprotocols == old(l.ug.Subprotocols)
+//@
+//@ func (*listener).handler
+//@   before call:SetReadLimit#1 assert has(l.opts, mangos.OptionMaxRecvSize) && is_int(l.opts[mangos.OptionMaxRecvSize]) ==> arg0 == int_of(l.opts[mangos.OptionMaxRecvSize])
